@@ -363,7 +363,7 @@ fn forced_small() -> &'static Small {
     static S: OnceLock<Small> = OnceLock::new();
     S.get_or_init(|| {
         let mut cases = vec![];
-        for n in 2..=5usize {
+        for n in 2..=6usize {
             for pi in 0..factorial(n) {
                 let perm = nth_permutation(n, pi);
                 let words = words_for_permutation(&perm);
@@ -796,7 +796,7 @@ impl Property for C16 {
             Batch { name: "split-noshuffle", count: 64 * TEST_SIZES.len() as u64 * 2, simulated: false, exhaustive: true,
                     note: "train_test_split, shuffle off: n 1..64 x 16 test sizes x {f64,f32} (schedule-free)" },
             Batch { name: "forced-perm-exhaustive", count: forced_small().cases.len() as u64, simulated: true, exhaustive: true,
-                    note: "every permutation of n<=5 rows forced through the RNG seam x every k x every operation" },
+                    note: "every permutation of n<=6 rows forced through the RNG seam x every k x every operation" },
             Batch { name: "prng-shuffle", count: if q { 200_000 } else { 6_000_000 }, simulated: true, exhaustive: false,
                     note: "seeded PRNG words behind thread_rng; n 2..64 (thorough: up to 300)" },
             Batch { name: "extreme-shuffle", count: if q { 80_000 } else { 2_000_000 }, simulated: true, exhaustive: false,
